@@ -10,6 +10,7 @@
    (GenU32 bolt/boltv2, GenS32 tars, GenU64 dubbo/dubbothrift).  Theorems quantify over all g, c0 and ALL histories. *)
 From Coq Require Import List NArith Bool.
 From MV Require Import Model.XConn Proofs.XConn.
+From MV Require Model.Pool Gen.PoolSrc Proofs.Pool.
 Import ListNotations.
 Open Scope N_scope.
 
@@ -59,6 +60,17 @@ Theorem c02_end_to_end_id : forall req u resp,
   f_payload (downstream_reply (server_stream_id req) resp) = f_payload resp.
 Proof. exact xserver_id_restore. Qed.
 Print Assumptions c02_end_to_end_id.
+
+(* Ping-pong connections carry no usable request id on the wire (HTTP/1.1): correlation is by order.  For every
+   history of the ping-pong pools (Model/Pool.v, theorems of C09) at most one stream is in flight on a connection, so the
+   response read next on a connection can only belong to that one stream; the pool harness checks on the real pools that
+   the token echoed in every delivered response is the receiver's own (finder `foreign-response`). *)
+Theorem c02_pingpong_fifo : forall k ops, Model.Pool.k_sw k = Gen.PoolSrc.pool_src_switches ->
+  let p := Model.Pool.run k ops Model.Pool.init in
+  forall s1 s2, (s1 < Model.Pool.nstreams p)%nat -> (s2 < Model.Pool.nstreams p)%nat ->
+    Model.Pool.live p s1 = true -> Model.Pool.live p s2 = true -> Model.Pool.scli p s1 = Model.Pool.scli p s2 -> s1 = s2.
+Proof. exact (fun k ops H => Proofs.Pool.inv_excl _ _ (Proofs.Pool.reachable_inv k ops H)). Qed.
+Print Assumptions c02_pingpong_fifo.
 
 (* ---- non-vacuity ------------------------------------------------------------------------------------------ *)
 (* bolt ids, counter two below 2^32: three streams allocated across the wrap (ids 2^32-1, 0, 1), answered in the order
